@@ -254,7 +254,8 @@ def gen_spec(rng, audit_types=("CARD_COMPARISON", "ONEAUDIT", "POLLING"), n_cont
     return {"restrict_pool_dict": restrict, "phantom_prefix": rng.choice(("phantom-1-", "phantom-1-", "phantom-1-", "ph-1-", "Phantom-2-")),
             "audit_max_cards": amc, "use_style": use_style, "max_cards": max_cards, "contests": contests, "cards": cards, "phantom_pool": ph_pool,
             "mvrs": mvrs, "sample_nums": sn, "direct_supermajority": rng.random() < 0.5,
-            "sn_mode": rng.choice(("list_order", "reverse", "shuffled", "contest_first")), "sn_step": rng.choice((1, 1, 17, 0.5)), **({"sn_base": 2 ** 255 + 12345, "sn_step": 2 ** 128} if rng.random() < 0.2 else {})}
+            "sn_mode": rng.choice(("list_order", "reverse", "shuffled", "contest_first")), "sn_step": rng.choice((1, 1, 17, 0.5)), **({"sn_base": 2 ** 255 + 12345, "sn_step": 2 ** 128} if rng.random() < 0.2 else
+               rng.choice(({"sn_base": -7}, {"sn_base": -1000}, {"sn_base": -2 ** 255, "sn_step": 2 ** 250})) if rng.random() < 0.15 else {})}   # (signed or user-supplied numbers: some or all below 0)
 
 
 def force_uniform_pool(rng, es):
@@ -350,6 +351,10 @@ class Sim:
                       "estim": getattr(NM, c["estim"]) if c["estim"] else None,
                       "bet": getattr(NM, c["bet"]) if c["bet"] else None, "test_kwargs": dict(c["test_kwargs"]),
                       "use_style": spec["use_style"]}
+            if spec.get("contest_style_flag_unset"):
+                # the contest dict says nothing about style (Contest.from_cvr_list, or a dict without the key): the audit's
+                # stratum is what says how cards are sampled
+                del d[cid]["use_style"]
             if c["kind"] == "irv":
                 d[cid]["assertion_json"] = copy.deepcopy(c["assertion_json"])
         self.contests = C.from_dict_of_dicts(d)
